@@ -28,6 +28,10 @@ Fail(e) ==
        IF e.id \notin Ids THEN "machinery:rem-precondition"
        ELSE IF e.len # N - 1 THEN "size-after-remove"
        ELSE IF e.truth # (e.len > 0) THEN "truth" ELSE ""
+  ELSE IF e.op = "baddec" THEN
+       IF e.id \notin Ids \/ Rank(e.key) <= Rank(live[e.id]) THEN "machinery:baddec-precondition"
+       ELSE IF ~e.refused THEN "increase-of-a-key-was-not-refused"
+       ELSE IF e.len # N THEN "size-after-refused-decrease" ELSE ""
   ELSE IF e.op = "clear" THEN
        IF e.len # 0 THEN "size-after-clear"
        ELSE IF e.truth # FALSE THEN "truth" ELSE ""
@@ -40,6 +44,7 @@ Step(e) ==
   \/ e.op = "dec"  /\ DecreaseKey(e.id, e.key)
   \/ e.op = "rem"  /\ Remove(e.id)
   \/ e.op = "clear" /\ Clear
+  \/ e.op = "baddec" /\ RefusedDecrease(e.id, e.key)
 TraceInit == Init /\ tid \in 1..Len(Traces) /\ l = 1 /\ err = ""
 TraceNext ==
   /\ err = "" /\ l <= Len(Tr)
